@@ -24,7 +24,62 @@ def budget(tier):
     return 700 if tier == "quick" else 6000
 
 
+def gen_dag_case(rng, tier):
+    """Mechanism-level history for the depth bookkeeping: edges of a random DAG inserted through
+    `_ensure_edge` in random order (each prefix is a state the depth clause must hold in)."""
+    k = rng.randint(3, 9 if tier == "quick" else 14)
+    edges = set()
+    for v in range(1, k):
+        for u in rng.sample(range(v), rng.randint(1, min(v, 3))):
+            edges.add((u, v))
+    edges = sorted(edges)
+    rng.shuffle(edges)
+    if rng.random() < 0.5:
+        # a late edge that makes a long chain jump onto an already built region
+        edges.sort(key=lambda e: (e[1] - e[0] == 1, rng.random()))
+    return {"dag": k, "edges": [list(e) for e in edges]}
+
+
+def gen_dag_batch(rng, tier):
+    return {"dags": [gen_dag_case(rng, tier) for _ in range(40)]}
+
+
+def run_dag_batch(case):
+    out = {"fails": [], "diffs": [], "tags": ["dag-insertion"], "nontrivial": True, "sig": common.case_hash(case)}
+    for c in case["dags"]:
+        r = run_dag_case(c)
+        for f in r["fails"]:
+            f["dag_case"] = c
+        out["fails"] += r["fails"]
+    return out
+
+
+def run_dag_case(case):
+    from biobalm import SuccessionDiagram
+    sd = SuccessionDiagram.from_rules("a, a")
+    for i in range(1, case["dag"]):
+        sd.dag.add_node(i, space={}, depth=0, expanded=True, skipped=None)
+    lines, obs = [], []
+    done = []
+    for u, v in case["edges"]:
+        sd._ensure_edge(u, v, {})
+        done.append(f"{u}>{v}")
+        lines.append(f"DEPTHS {case['dag']} " + " ".join(done))
+        obs.append(" ".join(str(sd.dag.nodes[i]["depth"]) for i in range(case["dag"])))
+    rep = common.run_driver(lines)
+    fails = []
+    for j, (a, b) in enumerate(zip(obs, rep)):
+        if a != b:
+            fails.append({"kind": "depth-not-longest-path", "sig": {}, "detail":
+                          f"after inserting edges {done[:j + 1]}: depths {a}, longest paths {b}"})
+            break
+    return {"fails": fails, "diffs": [], "tags": ["dag-insertion"], "nontrivial": len(case["edges"]) > case["dag"],
+            "sig": common.case_hash(case)}
+
+
 def gen_case(rng, tier, k):
+    if k % 3 == 0:
+        return gen_dag_batch(rng, tier)
     nmax = 6 if tier == "quick" else 7
     bnet = common.g_mixed(rng, nmax=nmax, p_core=0.25)
     ops1 = gen_ops(rng, rng.randint(1, 6), allow_unmodelled=False)
@@ -53,6 +108,10 @@ def run_hist(case, ops):
 
 
 def run_case(case):
+    if "dags" in case:
+        return run_dag_batch(case)
+    if "dag" in case:
+        return run_dag_case(case)
     plain._patch_recorders()
     fails, diffs, tags = [], [], []
     sd1, ni = run_hist(case, case["ops"])
